@@ -33,11 +33,24 @@ func (p *picker) n(name string, k int) int {
 func pick(p *picker, name string, xs []string) string { return xs[p.n(name, len(xs))] }
 
 var originNames = map[string][]string{
-	"dns":     {"origin.example.org", "matrix.org", "a-b.c-d.example", "localhost"},
-	"port":    {"origin.example.org:8448", "localhost:8800", "matrix.org:443"},
-	"ipv4":    {"203.0.113.7", "203.0.113.7:8448"},
-	"ipv6":    {"[2001:db8::7]:8448", "[::1]", "[2001:db8:0:0:0:0:0:7]:443"},
-	"invalid": {"origin_bad.example.org", "bad name.example.org", "[2001:db8::7", "origin.example.org:8448:1", "exämple.org", "origin.example.org/x"},
+	"dns":  {"origin.example.org", "matrix.org", "a-b.c-d.example", "localhost"},
+	"port": {"origin.example.org:8448", "localhost:8800", "matrix.org:443"},
+	"ipv4": {"203.0.113.7", "203.0.113.7:8448"},
+	"ipv6": {"[2001:db8::7]:8448", "[::1]", "[2001:db8:0:0:0:0:0:7]:443"},
+	// one grammar violation each (FedRequest.tla ExtraInvalidOrigins)
+	"inv_brk4":       {"[10.1.2.3]"},
+	"inv_brk4port":   {"[10.1.2.3]:8800"},
+	"inv_portbig":    {"origin.example.org:65536", "origin.example.org:99999"},
+	"inv_port6":      {"origin.example.org:000080", "origin.example.org:123456"},
+	"inv_portneg":    {"origin.example.org:-1"},
+	"inv_portplus":   {"origin.example.org:+80"},
+	"inv_emptyhost":  {":8448"},
+	"inv_underscore": {"origin_bad.example.org", "_origin.example.org:8448"},
+	"inv_space":      {"bad name.example.org", "origin.example.org :8448"},
+	"inv_slash":      {"origin.example.org/x", "origin.example.org/:8448"},
+	"inv_bracket":    {"[2001:db8::7", "2001:db8::7]", "[2001:db8::7:8448"},
+	"inv_long":       {strings.Repeat("a123456789.", 23) + "abc", strings.Repeat("a123456789.", 23) + "abc:8448"},
+	"invalid":        {"origin_bad.example.org", "bad name.example.org", "[2001:db8::7", "origin.example.org:8448:1", "exämple.org", "origin.example.org/x"},
 }
 
 const otherOrigin = "other.example.net"
